@@ -65,7 +65,7 @@ def materialise(case):
         prof = dict(case["prof"])
         prof["n_fields"] = [len(fields), 0]
         prof["n_launch"] = [len(lfields)]
-        prof["launch_pool"] = ["%one", "%zero", "%k0", "%k1"] if rocc else (["%zero"] if case["cfg"]["kind"] == "hwpe_mult" else ["%one", "%one", "%k0"])
+        prof["launch_pool"] = ["%one", "%k0", "%k1"] if case["cfg"]["kind"].startswith("synth") else ["%one", "%zero", "%k0", "%k1"] if rocc else (["%zero"] if case["cfg"]["kind"] == "hwpe_mult" else ["%one", "%one", "%k0"])
         case["ast"] = G.AccfgGen(random.Random(case["gseed"]), prof).program()
     return acc, acc_op, fields, lfields, style, rocc
 
@@ -227,7 +227,7 @@ META = {
     + [
         "a write to a launch register starts a job; consecutive launch-register writes form one job",
         "busy + performance-counter status registers sit at launch_streamer+1/+2 and are read-only (get_streamer_launch_dict comment)",
-        "barrier styles 2 and 4 are used by no accelerator class and are not exercised; gemmx launches carrying mult_vals (channel-wise rescale) are not generated",
+        "barrier styles 2 and 4 are used by no accelerator class of the repo: they are exercised through two synthetic accelerators defined in /verif (SNAXAccelerator + SNAXPollingBarrier2 / 4); style 4 model: a write of 0 to a launch register starts nothing and blocks while the device is busy; gemmx launches carrying mult_vals (channel-wise rescale) are not generated",
         "values compared mod 2^32 (CSR) / 2^64 (RoCC); order of field writes inside one setup is not compared",
     ],
     "interleavings": "single core: 1",
